@@ -68,6 +68,9 @@ func restartMonitor(keys *Keys, h History, ref *Trace, r *rand.Rand) []Failure {
 // twinMonitor (C06, C01): for failing transactions of the history, the chain without that
 // transaction must commit the same per-module stores (and the same projected state apart from
 // sequence numbers) at that height.
+// twinAll: twin-execute every failing transaction of a history, not three of them (focused search, -focus)
+var twinAll bool
+
 func twinMonitor(keys *Keys, h History, ref *Trace, r *rand.Rand) []Failure {
 	type loc struct{ b, t int }
 	var failing []loc
@@ -92,7 +95,7 @@ func twinMonitor(keys *Keys, h History, ref *Trace, r *rand.Rand) []Failure {
 		return 2
 	}
 	sort.SliceStable(failing, func(i, j int) bool { return risk(failing[i]) < risk(failing[j]) })
-	if len(failing) > 3 {
+	if len(failing) > 3 && !twinAll {
 		failing = failing[:3]
 	}
 	sort.Slice(failing, func(i, j int) bool { return failing[i].b < failing[j].b })
